@@ -151,4 +151,198 @@ theorem logP_groups (c : Ctx) (fuel : Nat) (ih : LogP c fuel) :
           simp only [Prod.mk.injEq] at h
           exact hblock st' h.2.symm
 
+theorem logP_field (c : Ctx) (fuel : Nat) (ih : LogP c fuel) :
+    ∀ dfr rt src p fd nodes st r st',
+    execField c (fuel + 1) dfr rt src p fd nodes st = (r, st') →
+    ∃ new, st'.log = new ++ st.log ∧ (∀ e, e ∈ new → p <+: e.path) ∧ (new.map (·.path)).Nodup := by
+  intro dfr rt src p fd nodes st r st' h
+  simp only [execField] at h
+  split at h
+  · simp only [Prod.mk.injEq] at h
+    exact ⟨[], by simp [← h.2], by simp, by simp⟩
+  · -- one entry at `p`, then the segment of `complete` strictly below `p`
+    have hone : ∀ (e : LogEntry) (st0 st2 : St), e.path = p → st0.log = e :: st.log → st2.log = st0.log →
+        ∃ new, st2.log = new ++ st.log ∧ (∀ e, e ∈ new → p <+: e.path) ∧ (new.map (·.path)).Nodup := by
+      intro e st0 st2 hp h0 h2
+      refine ⟨[e], by rw [h2, h0]; rfl, ?_, by simp⟩
+      intro e' he'; simp only [List.mem_singleton] at he'; subst he'; rw [hp]; exact List.prefix_refl _
+    split at h
+    · split at h
+      · simp only [Prod.mk.injEq] at h
+        exact hone _ _ st' rfl rfl (by rw [← h.2])
+      · simp only [Prod.mk.injEq] at h
+        exact hone _ _ st' rfl rfl (by rw [← h.2])
+    · rename_i v hv
+      generalize hst0 : ({ st with log := _ :: st.log } : St) = st0 at h
+      obtain ⟨ent, hentp, h0⟩ : ∃ ent : LogEntry, ent.path = p ∧ st0.log = ent :: st.log := by
+        rw [← hst0]; exact ⟨_, rfl, rfl⟩
+      rcases hc : complete c fuel dfr fd.type rt fd.name nodes p v st0 with ⟨r1, st1⟩
+      rw [hc] at h
+      obtain ⟨cnew, hl, hb, hn⟩ := ih.complete _ _ _ _ _ _ _ _ _ _ hc
+      have hfin : ∀ (st2 : St), st2.log = st1.log →
+          ∃ new, st2.log = new ++ st.log ∧ (∀ e, e ∈ new → p <+: e.path) ∧ (new.map (·.path)).Nodup := by
+        intro st2 h2
+        refine ⟨cnew ++ [ent], by rw [h2, hl, h0]; simp, ?_, ?_⟩
+        · intro e he
+          rcases List.mem_append.mp he with he | he
+          · exact (hb e he).prefix
+          · simp only [List.mem_singleton] at he; subst he; rw [hentp]; exact List.prefix_refl _
+        · rw [List.map_append, List.nodup_append]
+          refine ⟨hn, by simp, ?_⟩
+          intro q1 h1 q2 h2 heq
+          simp only [List.map_cons, List.map_nil, List.mem_singleton] at h2
+          obtain ⟨e1, he1, rfl⟩ := List.mem_map.mp h1
+          exact (hb e1 he1).ne (heq.trans (h2.trans hentp))
+      cases r1 with
+      | ok j => simp only [Prod.mk.injEq] at h; exact hfin st' (by rw [← h.2])
+      | fail =>
+        simp only at h
+        split at h <;> simp only [Prod.mk.injEq] at h <;> exact hfin st' (by rw [← h.2])
+      | fuelOut => simp only [Prod.mk.injEq] at h; exact hfin st' (by rw [← h.2])
+
+theorem logP_items (c : Ctx) (fuel : Nat) (ih : LogP c fuel) :
+    ∀ dfr item rt fname nodes p xs i acc st r st',
+    completeItems c (fuel + 1) dfr item rt fname nodes p xs i acc st = (r, st') →
+    ∃ new, st'.log = new ++ st.log ∧ (∀ e, e ∈ new → ∃ j, i ≤ j ∧ (p ++ [.idx j]) <+: e.path) ∧
+      (new.map (·.path)).Nodup := by
+  intro dfr item rt fname nodes p xs i acc st r st' h
+  cases xs with
+  | nil =>
+    simp only [completeItems, Prod.mk.injEq] at h
+    exact ⟨[], by simp [← h.2], by simp, by simp⟩
+  | cons x xs =>
+    simp only [completeItems] at h
+    rcases hc : complete c fuel dfr item rt fname nodes (p ++ [.idx i]) x st with ⟨r1, st1⟩
+    rw [hc] at h
+    obtain ⟨new1, hl1, hb1, hn1⟩ := ih.complete _ _ _ _ _ _ _ _ _ _ hc
+    have hp1 : ∀ e, e ∈ new1 → ∃ j, i ≤ j ∧ (p ++ [.idx j]) <+: e.path :=
+      fun e he => ⟨i, Nat.le_refl _, (hb1 e he).prefix⟩
+    have hstop : ∀ (st2 : St), st2 = st1 → ∃ new, st2.log = new ++ st.log ∧
+        (∀ e, e ∈ new → ∃ j, i ≤ j ∧ (p ++ [.idx j]) <+: e.path) ∧ (new.map (·.path)).Nodup := by
+      intro st2 h2; subst h2; exact ⟨new1, hl1, hp1, hn1⟩
+    have hgo : ∀ acc', completeItems c fuel dfr item rt fname nodes p xs (i + 1) acc' st1 = (r, st') →
+        ∃ new, st'.log = new ++ st.log ∧
+        (∀ e, e ∈ new → ∃ j, i ≤ j ∧ (p ++ [.idx j]) <+: e.path) ∧ (new.map (·.path)).Nodup := by
+      intro acc' h
+      obtain ⟨new2, hl2, hp2, hn2⟩ := ih.items _ _ _ _ _ _ _ _ _ _ _ _ h
+      refine ⟨new2 ++ new1, by rw [hl2, hl1, List.append_assoc], ?_, ?_⟩
+      · intro e he
+        rcases List.mem_append.mp he with he | he
+        · obtain ⟨j, hj, hp⟩ := hp2 e he
+          exact ⟨j, by omega, hp⟩
+        · exact hp1 e he
+      · rw [List.map_append, List.nodup_append]
+        refine ⟨hn2, hn1, ?_⟩
+        intro q1 h1 q2 h2 heq
+        subst heq
+        obtain ⟨e2, he2, rfl⟩ := List.mem_map.mp h1
+        obtain ⟨e1, he1, hq⟩ := List.mem_map.mp h2
+        obtain ⟨j, hj, hp⟩ := hp2 e2 he2
+        have := Path.seg_eq_of_prefix hp (hq ▸ (hb1 e1 he1).prefix)
+        simp only [PathSeg.idx.injEq] at this
+        omega
+    cases r1 with
+    | ok j => exact hgo _ h
+    | fail =>
+      simp only at h
+      split at h
+      · simp only [Prod.mk.injEq] at h; exact hstop st' h.2.symm
+      · exact hgo _ h
+    | fuelOut => simp only [Prod.mk.injEq] at h; exact hstop st' h.2.symm
+
+theorem logP_complete (c : Ctx) (fuel : Nat) (ih : LogP c fuel) :
+    ∀ dfr t rt fname nodes p v st r st',
+    complete c (fuel + 1) dfr t rt fname nodes p v st = (r, st') →
+    ∃ new, st'.log = new ++ st.log ∧ (∀ e, e ∈ new → Path.Below p e.path) ∧ (new.map (·.path)).Nodup := by
+  intro dfr t rt fname nodes p v st r st' h
+  have hnone : ∀ (st2 : St), st2.log = st.log →
+      ∃ new, st2.log = new ++ st.log ∧ (∀ e, e ∈ new → Path.Below p e.path) ∧ (new.map (·.path)).Nodup :=
+    fun st2 h2 => ⟨[], by simp [h2], by simp, by simp⟩
+  have hgroups : ∀ ot, ∀ (rr : Res (List (String × JVal)) × St),
+      execGroups c fuel dfr ot v p (collectMerged c ot nodes) [] st = rr →
+      ∃ new, rr.2.log = new ++ st.log ∧ (∀ e, e ∈ new → Path.Below p e.path) ∧ (new.map (·.path)).Nodup := by
+    intro ot rr hg
+    obtain ⟨r1, st1⟩ := rr
+    obtain ⟨new, hl, hb⟩ := ih.groups _ _ _ _ _ _ _ _ _ hg
+    refine ⟨new, hl, ?_, ?_⟩
+    · intro e he
+      obtain ⟨k, -, hp⟩ := hb.mem e (List.mem_reverse.mpr he)
+      exact Path.below_of_prefix_snoc hp
+    · have := hb.nodup (collectMerged_keys_nodup c ot nodes)
+      rw [List.map_reverse] at this
+      exact List.nodup_reverse'.mp this
+  simp only [complete] at h
+  split at h
+  · -- thunk
+    split at h
+    · simp only [Prod.mk.injEq] at h; exact hnone st' (by rw [← h.2]; rfl)
+    · rename_i v'
+      rcases hc : complete c fuel true t rt fname nodes p v' st with ⟨r1, st1⟩
+      rw [hc] at h
+      obtain ⟨new, hl, hb, hn⟩ := ih.complete _ _ _ _ _ _ _ _ _ _ hc
+      refine ⟨new, ?_, hb, hn⟩
+      rw [← hl]
+      cases r1 <;> simp only [Prod.mk.injEq] at h <;> rw [← h.2]
+  · simp only [Prod.mk.injEq] at h; exact hnone st' (by rw [← h.2]; rfl)
+  · split at h
+    · -- nonNull
+      rename_i inner
+      rcases hc : complete c fuel dfr inner rt fname nodes p v st with ⟨r1, st1⟩
+      rw [hc] at h
+      obtain ⟨new, hl, hb, hn⟩ := ih.complete _ _ _ _ _ _ _ _ _ _ hc
+      refine ⟨new, ?_, hb, hn⟩
+      rw [← hl]
+      split at h
+      · rename_i heq
+        simp only [Prod.mk.injEq] at h heq
+        rw [← h.2, ← heq.2]; rfl
+      · simp only [Prod.mk.injEq] at h; rw [← h.2]
+    · -- list
+      rename_i item
+      split at h
+      · simp only [Prod.mk.injEq] at h; exact hnone st' (by rw [← h.2])
+      · split at h
+        · rename_i xs _ _ _
+          rcases hi : completeItems c fuel dfr item rt fname nodes p xs 0 [] st with ⟨r1, st1⟩
+          rw [hi] at h
+          obtain ⟨new, hl, hp, hn⟩ := ih.items _ _ _ _ _ _ _ _ _ _ _ _ hi
+          refine ⟨new, ?_, ?_, hn⟩
+          · rw [← hl]; cases r1 <;> simp only [Prod.mk.injEq] at h <;> rw [← h.2]
+          · intro e he
+            obtain ⟨j, -, hpj⟩ := hp e he
+            exact Path.below_of_prefix_snoc hpj
+        · simp only [Prod.mk.injEq] at h; exact hnone st' (by rw [← h.2]; rfl)
+    · -- named
+      rename_i n
+      split at h
+      · simp only [Prod.mk.injEq] at h; exact hnone st' (by rw [← h.2])
+      · split at h
+        · split at h
+          · simp only [Prod.mk.injEq] at h; exact hnone st' (by rw [← h.2])
+          · simp only [Prod.mk.injEq] at h; exact hnone st' (by rw [← h.2]; rfl)
+        · split at h
+          · split at h
+            · simp only [Prod.mk.injEq] at h; exact hnone st' (by rw [← h.2]; rfl)
+            · rename_i ot hot
+              split at h
+              · simp only [Prod.mk.injEq] at h; exact hnone st' (by rw [← h.2]; rfl)
+              · have := hgroups ot _ rfl
+                rcases hg : execGroups c fuel dfr ot v p (collectMerged c ot nodes) [] st with ⟨r1, st1⟩
+                rw [hg] at h this
+                cases r1 <;> simp only [Prod.mk.injEq] at h <;> rw [← h.2] <;> exact this
+          · split at h
+            · split at h
+              · simp only [Prod.mk.injEq] at h; exact hnone st' (by rw [← h.2]; rfl)
+              · have := hgroups n _ rfl
+                rcases hg : execGroups c fuel dfr n v p (collectMerged c n nodes) [] st with ⟨r1, st1⟩
+                rw [hg] at h this
+                cases r1 <;> simp only [Prod.mk.injEq] at h <;> rw [← h.2] <;> exact this
+            · simp only [Prod.mk.injEq] at h; exact hnone st' (by rw [← h.2]; rfl)
+
+theorem logP (c : Ctx) : ∀ fuel, LogP c fuel
+  | 0 => logP_zero c
+  | fuel + 1 =>
+    have ih := logP c fuel
+    ⟨logP_groups c fuel ih, logP_field c fuel ih, logP_complete c fuel ih, logP_items c fuel ih⟩
+
 end GqlModel.Exec
